@@ -1,23 +1,8 @@
-(** C07 — towards renaming invariance of the model expander + resolve.
-
-    Full statement (NOT yet proved; kept here as the target, see notes/C07.md):
-
-      Theorem rename_invariance_core : forall a b mt G fuel st U x r,
-        wf x = true -> no_local G ->
-        resolve [a; b] mt fuel st [] (U ++ G) x = OK r ->
-        resolve []     mt fuel st [] (swap_env a b U ++ G) (swapU a b x) = OK r.
-
-    i.e. if in the analysis of a user program the bare symbols a and b only ever resolve to
-    lambda-bound cells and never occur in quoted data (that is what the guard [a; b] checks), then
-    swapping a and b everywhere in the user text (b may be if, tmp, car, ... : any name the macro
-    templates or the global environment use) yields the very same binding structure.
-
-    Proved below: the two facts the simulation rests on —
+(** C07 — the two facts the renaming-invariance theorem rests on (the theorem itself, the induction over
+    [resolve], is rename_invariance_core in CoreProofs.v, proved in round 3):
       rename_invariance_lookup_partial : every guarded identifier lookup answers the same cell after
         the swap (user frames keyed by the swapped symbols, closure keys and the global part untouched);
-      expand_equivariant : macro expansion commutes with the swap (templates never see user names).
-    Missing: the induction over [resolve] itself (case split of analyze: lambda / if / quote / set! /
-    macro / application) combining the two. *)
+      expand_equivariant : macro expansion commutes with the swap (templates never see user names). *)
 From Coq Require Import NArith List Bool Lia.
 From ChibiV Require Import C07.Env C07.EnvProofs C07.Expand C07.RenamerProofs.
 Import ListNotations.
